@@ -168,6 +168,20 @@ def run_impl(p):
                     return []
                 return [int(x) for x in sh.ravel_multi_index((np.array([r for r, _ in rc]), np.array([c for _, c in rc])))]
             o["ravel_idx"] = guarded(rav)
+            def rav_forms():
+                # the (row, column) pairs as lists, as narrow / unsigned / 64-bit arrays, and the empty selection: the flat
+                # positions are integers (usable as indices) in every case
+                rc = [(r, c) for r, l in enumerate(p["lens"]) for c in range(l)]
+                rows = [r for r, _ in rc]; cols = [c for _, c in rc]
+                out = []
+                for mk in (lambda v: list(v), lambda v: np.array(v, dtype=np.uint64), lambda v: np.array(v, dtype=np.int16 if max(list(v) + [0]) < 32768 else np.int32), lambda v: np.array(v, dtype=np.intp)):
+                    for rr, cc in ((mk(rows), mk(cols)), (mk([]), mk([]))):
+                        if len(p["lens"]) == 0 and len(rr):
+                            continue
+                        res = np.asarray(sh.ravel_multi_index((rr, cc)))
+                        out.append([res.dtype.kind in "iu", [int(x) for x in res]])
+                return out
+            o["ravel_idx_forms"] = guarded(rav_forms)
             o["index_array"] = guarded(lambda: [int(x) for x in sh.index_array()]) if len(p["lens"]) else canon([])
             def dict_rt():
                 d = sh.to_dict()
@@ -285,6 +299,8 @@ def oracle(p):
         rc = [[r, c] for r, l in enumerate(lens) for c in range(l)]
         o["unravel"] = canon(rc)
         o["ravel_idx"] = canon(list(range(sum(lens))))
+        full = list(range(sum(lens)))
+        o["ravel_idx_forms"] = canon([[True, v] for _ in range(4) for v in (full, [])])
         o["index_array"] = canon([r for r, _ in rc])
         o["dict_roundtrip"] = canon([starts, list(lens), starts, list(lens)])
         return o
